@@ -18,6 +18,7 @@ RULE += ' Some tickers carry dots (S0.L next to S0, BRK.B). The two-source handl
 RULE += ' A quarter of the files contain untraded days whose bar repeats an earlier bar in every column; 40% of the datasets are read after another source over the same files with the other adjustment setting was built and used; get_assets_historical_closes(start, end, assets) is compared with the raw closes of exactly the bars dated in [start, end] (4 ranges per dataset); every fifth dataset is paired with a second vendor (same tickers/dates, other prices) while its own first rows are blank.'
 RULE += " Column order after Date is shuffled in 30% of the datasets; 15% write dates as M/D/YYYY; 15% have whole-number closes with fractional opens; 20% use lower-case file names (tip, tips, gs); every handler query is repeated through a user-style source whose ask differs from its bid (handler ask = that source's ask)."
 RULE += ' 30% of the datasets are read through a copy.copy/deepcopy of the source handed to the handler in a tuple.'
+RULE += ' Adjustment ratios include 0.999992 and 1.000004; 5% of the datasets quote whole numbers of a few billion in every price column; 12% start between 1958 and 1969.'
 ASSUMPTIONS = [
     'unique dates per file; Close and Adj Close are missing together (otherwise "scaled by adjusted-close/close" has no single reading)',
     'values compared at 1e-12 relative (one division and one multiplication in the adjustment)',
